@@ -146,3 +146,72 @@ Definition demo_chain_check : option (bool * bool * bool * bool * bool) :=
   end.
 Example C05_chain_example : demo_chain_check = Some (true, true, true, true, true).
 Proof. vm_compute. reflexivity. Qed.
+
+(* ---------- edit locality ---------- *)
+From A2L Require Import Proofs.ParseOrderProofs Proofs.EditLocalityProofs.
+
+(* An element whose children were read in the order P (ids increasing: what the parser builds and what sort_new_items keeps),
+   none of them position-restricted: it is written as its parameters followed by one segment of tokens per child, each
+   segment with its own line offsets.  With one child removed the element is written exactly as before, minus the segment of
+   that child - every other token keeps its text and its line offset, i.e. the other lines are the same lines.  Read from
+   right to left this is the statement for adding a child; [C05_changing_an_object_changes_only_its_tokens] is the one for
+   changing a field of a child. *)
+Theorem C05_removing_an_object_removes_only_its_tokens :
+  forall S posrs ftab f ty td lay fields cms fis u l titems P1 e P2 lo,
+  lookup_ty S ty = Some td -> t_special td = None -> t_items td = fis ++ [ITagged u l titems] -> fields_only_items fis ->
+  length fields = length fis -> fits titems (P1 ++ e :: P2) -> unrestricted S posrs (P1 ++ e :: P2) -> uid_chain lo (P1 ++ e :: P2) ->
+  let w := wtoks S posrs ftab f in let wo := woffs S posrs f in
+  let head := items_toks S posrs ftab w fis fields [] in let head_o := items_offs S posrs wo fis fields [] in
+  wtoks S posrs ftab (Datatypes.S f) (VNode ty lay fields (kids_of (length titems) (P1 ++ e :: P2)) cms) = head ++ flat_map (seg w) P1 ++ seg w e ++ flat_map (seg w) P2 /\
+  wtoks S posrs ftab (Datatypes.S f) (VNode ty lay fields (kids_of (length titems) (P1 ++ P2)) cms) = head ++ flat_map (seg w) P1 ++ flat_map (seg w) P2 /\
+  woffs S posrs (Datatypes.S f) (VNode ty lay fields (kids_of (length titems) (P1 ++ e :: P2)) cms) = head_o ++ flat_map (seg_offs wo) P1 ++ seg_offs wo e ++ flat_map (seg_offs wo) P2 /\
+  woffs S posrs (Datatypes.S f) (VNode ty lay fields (kids_of (length titems) (P1 ++ P2)) cms) = head_o ++ flat_map (seg_offs wo) P1 ++ flat_map (seg_offs wo) P2.
+Proof. exact element_without_a_child. Qed.
+Print Assumptions C05_removing_an_object_removes_only_its_tokens.
+
+Theorem C05_changing_an_object_changes_only_its_tokens :
+  forall S posrs (w : value -> list shape) (wo : value -> list (option N)) titems P1 e e' P2 lo,
+  euid e' = euid e -> fst e' = fst e -> pos_restrict S posrs (snd e') = None ->
+  fits titems (P1 ++ e :: P2) -> unrestricted S posrs (P1 ++ e :: P2) -> uid_chain lo (P1 ++ e :: P2) ->
+  group_toks S posrs w titems (kids_of (length titems) (P1 ++ e' :: P2)) = flat_map (seg w) P1 ++ seg w e' ++ flat_map (seg w) P2 /\
+  group_offs S posrs wo titems (kids_of (length titems) (P1 ++ e' :: P2)) = flat_map (seg_offs wo) P1 ++ seg_offs wo e' ++ flat_map (seg_offs wo) P2.
+Proof. exact changing_a_child_changes_its_segment. Qed.
+Print Assumptions C05_changing_an_object_changes_only_its_tokens.
+
+(* the premise about the shape of an element - parameters first, then one group of children - is met by the blocks of the
+   shipped grammar that hold the objects one edits *)
+Definition params_then_one_group (n : string) : bool :=
+  match lookup_ty spec_shipped n with
+  | Some td =>
+      match rev (t_items td) with
+      | ITagged _ _ _ :: rf => forallb (fun it => match it with IField _ _ => true | ITagged _ _ _ => false end) rf
+      | _ => false
+      end
+  | None => false
+  end.
+Example C05_shipped_blocks_have_parameters_then_one_group :
+  forallb params_then_one_group ["Module"; "Measurement"; "Characteristic"; "AxisPts"; "CompuMethod"; "Group"; "Function"; "Project"]%string = true.
+Proof. vm_compute. reflexivity. Qed.
+
+(* the premises about the children are met: two MEASUREMENTs of a MODULE with ids 3 and 7 *)
+Definition demo_module_titems : list titem :=
+  match lookup_ty spec_shipped "Module" with
+  | Some td => match rev (t_items td) with ITagged _ _ ti :: _ => ti | _ => [] end
+  | None => []
+  end.
+Definition demo_meas (uid : N) : option entry :=
+  match find_titem demo_module_titems (bytes_of "MEASUREMENT") 0 with
+  | Some (i, ti) => Some (i, ti, VNode "Measurement" (mkLay uid 0 1 1 None) [] [] [])
+  | None => None
+  end.
+Example C05_edit_locality_premises_are_met :
+  match demo_meas 3, demo_meas 7 with
+  | Some a, Some b => fits demo_module_titems [a; b] /\ unrestricted spec_shipped posr_shipped [a; b] /\ uid_chain 0 [a; b]
+  | _, _ => False
+  end.
+Proof.
+  vm_compute demo_meas. cbv iota beta. split; [|split].
+  - repeat constructor; vm_compute; reflexivity.
+  - repeat constructor; vm_compute; reflexivity.
+  - cbn [uid_chain euid layout_of snd l_uid]. repeat split; reflexivity.
+Qed.
